@@ -51,6 +51,9 @@ type Stats struct {
 	AssertsByMsg  map[string]int
 	ReachedEnd    int
 	BranchQueries int
+	CrossChecked  int
+	CrossDisagree int
+	CrossUnknown  int
 }
 
 type PathSample struct {
@@ -86,6 +89,9 @@ type Ctx struct {
 	harness    string
 	reachedEnd bool
 	hchoices   []int
+	cross      []*Solver
+	crossEvery []int
+	crossN     int
 	where      *ssa.Function
 	facts      map[*Term]bool
 	maxDepth   int
@@ -112,6 +118,7 @@ type RunCfg struct {
 	Known           map[string]bool
 	Tier            string
 	MaxPaths        int
+	Cross           []string // cross-check solvers, "name" or "name:every"
 	Params          map[string]int
 }
 
@@ -469,6 +476,24 @@ func (c *Ctx) Assert(cond *Term, msg string) {
 		fail(copyModel(c.model))
 	}
 	res, m := c.check(c.st.Not(cond), c.cfg.AssertTimeoutMs)
+	if res != Unknown && len(c.cross) > 0 {
+		// cross-solver tier: the same verification condition is decided again by independent back ends
+		c.crossN++
+		for i, cs := range c.cross {
+			if c.crossN%c.crossEvery[i] != 0 {
+				continue
+			}
+			conj := append(append([]*Term{}, c.pc...), c.st.Not(cond))
+			r2, _ := cs.Check(conj, c.cfg.AssertTimeoutMs)
+			c.stats.CrossChecked++
+			if r2 == Unknown {
+				c.stats.CrossUnknown++
+			} else if r2 != res {
+				c.stats.CrossDisagree++
+				res = Unknown // a disagreement is never turned into a verdict
+			}
+		}
+	}
 	switch res {
 	case Unsat:
 		c.stats.Discharged++
